@@ -4,6 +4,7 @@ import (
 	"go/ast"
 	"go/token"
 	"go/types"
+	"os"
 	"strings"
 
 	"sialint/internal/cfgx"
@@ -131,6 +132,28 @@ func soleAssignmentAfterDecl(f *ir.Func, defs []ir.Write, use ast.Node) (ir.Writ
 	return *asg, true
 }
 
+// deadDef: no node that mentions obj is reachable from the definition d (other than d's own node).
+func deadDef(f *ir.Func, obj types.Object, d ir.Write) bool {
+	g := f.Graph()
+	dn := g.NodeContaining(d.LHS.Pos())
+	if dn == nil || d.RHS == nil {
+		return false
+	}
+	if _, isCall := ast.Unparen(d.RHS).(*ast.CallExpr); isCall {
+		return false
+	}
+	var st []*cfgx.Visit
+	for _, e := range dn.Succs {
+		st = append(st, cfgx.StartAfter(e, 0))
+	}
+	for m := range g.Reach(st, nil) {
+		if m.AST != nil && f.MentionsObj(m.AST, true, obj) {
+			return false
+		}
+	}
+	return true
+}
+
 // copySource follows whole-value copies `x = y` / `x, … = y, …`: when obj's
 // only definition besides a bare declaration is a copy of another local
 // variable, and that source is not written on any path after the copy, the
@@ -142,6 +165,10 @@ func copySource(f *ir.Func, obj types.Object) types.Object {
 		defs := wholeDefs(f, obj)
 		for j := range defs {
 			if vs, ok := defs[j].Stmt.(*ast.ValueSpec); ok && len(vs.Values) == 0 {
+				continue
+			}
+			// the value a helper's failure return leaves (a zero, a sentinel) when nothing reads the variable after it
+			if deadDef(f, obj, defs[j]) {
 				continue
 			}
 			asg = &defs[j]
@@ -178,6 +205,8 @@ func copySource(f *ir.Func, obj types.Object) types.Object {
 	return obj
 }
 
+var tupleDepth int
+
 // tupleDef returns the call and result index that define obj in a tuple
 // assignment `a, b, c := call()`, when that is obj's only definition.
 func tupleDef(f *ir.Func, obj types.Object) (*ast.CallExpr, int) {
@@ -201,7 +230,33 @@ func tupleDef(f *ir.Func, obj types.Object) (*ast.CallExpr, int) {
 	var found *ast.CallExpr
 	idx := -1
 	n := 0
+	bare := false
 	for _, d := range defs {
+		// a bare declaration hoisted in front of an expanded helper (checked below: the defining call must come first)
+		if vs, isSpec := d.Stmt.(*ast.ValueSpec); isSpec && len(vs.Values) == 0 && len(defs) > 1 {
+			bare = true
+			continue
+		}
+		if d.RHS != nil {
+			// `x = x` left by a helper whose variable became the caller's
+			if f.ObjOf(ast.Unparen(d.RHS)) == obj {
+				continue
+			}
+			// the zero a helper yields on a failure path, when nothing that reads the variable can follow it
+			if cl, isLit := ast.Unparen(d.RHS).(*ast.CompositeLit); (isLit && len(cl.Elts) == 0) || f.IsNil(d.RHS) {
+				if dn := f.Graph().NodeContaining(d.LHS.Pos()); dn != nil {
+					read := false
+					for m := range f.Graph().Reach([]*cfgx.Visit{cfgx.StartAt(dn, 0)}, nil) {
+						if m != dn && m.AST != nil && f.MentionsObj(m.AST, true, obj) {
+							read = true
+						}
+					}
+					if !read {
+						continue
+					}
+				}
+			}
+		}
 		rhs := ir.TupleRHS(d.Stmt)
 		if d.RHS != nil {
 			// single assignment from a call returning one value
@@ -235,7 +290,52 @@ func tupleDef(f *ir.Func, obj types.Object) (*ast.CallExpr, int) {
 		n++
 	}
 	if n != 1 {
+		if os.Getenv("SIALINT_DEBUGTUPLE") != "" {
+			for _, d := range defs {
+				println("tupleDef", obj.Name(), n, f.P.Pos(d.LHS.Pos()), d.RHS != nil, ir.ExprString(d.LHS))
+			}
+		}
 		return nil, -1
+	}
+	if found == nil {
+		// the one definition left is a whole copy of another local (a helper's own variable handed over at its
+		// return): that variable's definition is the one that matters
+		for _, d := range defs {
+			if d.RHS == nil {
+				continue
+			}
+			if src, ok := f.ObjOf(ast.Unparen(d.RHS)).(*types.Var); ok && !src.IsField() && src != obj && types.Identical(src.Type(), obj.Type()) {
+				if _, isID := ast.Unparen(d.RHS).(*ast.Ident); isID && tupleDepth < 3 {
+					tupleDepth++
+					c, i := tupleDef(f, src)
+					tupleDepth--
+					return c, i
+				}
+			}
+		}
+		return nil, -1
+	}
+	if bare && found != nil {
+		// every read of the variable lies behind the defining call
+		g := f.Graph()
+		dn := g.NodeContaining(found.Pos())
+		if dn == nil {
+			return nil, -1
+		}
+		for _, m := range g.Nodes {
+			if m == dn || m.AST == nil || !g.Live(m) || !f.MentionsObj(m.AST, true, obj) {
+				continue
+			}
+			if _, isDecl := m.AST.(*ast.ValueSpec); isDecl {
+				continue
+			}
+			if !g.DominatedByNode(m, dn) {
+				if os.Getenv("SIALINT_DEBUGTUPLE") != "" {
+					println("tupleDef bare: not dominated", obj.Name(), f.P.Pos(m.Pos()))
+				}
+				return nil, -1
+			}
+		}
 	}
 	return found, idx
 }
@@ -458,6 +558,9 @@ func lvalueCopySource(f *ir.Func, lv ast.Expr) ast.Expr {
 			if vs, ok := ws[i].Stmt.(*ast.ValueSpec); ok && len(vs.Values) == 0 {
 				continue
 			}
+			if o := f.ObjOf(ast.Unparen(lv)); o != nil && deadDef(f, o, ws[i]) {
+				continue
+			}
 			asg = &ws[i]
 			n++
 		}
@@ -467,7 +570,15 @@ func lvalueCopySource(f *ir.Func, lv ast.Expr) ast.Expr {
 	}
 	src, ok := f.ObjOf(asg.RHS).(*types.Var)
 	if !ok || src.IsField() {
-		return lv
+		// a field of a local record (`quote.Deposits`, the record's address having been handed to an encoder)
+		if _, isSel := ast.Unparen(asg.RHS).(*ast.SelectorExpr); !isSel {
+			return lv
+		}
+		root, isVar := f.ObjOf(rootOfLvalue(asg.RHS)).(*types.Var)
+		if !isVar || root.IsField() || isPointer(root.Type()) {
+			return lv
+		}
+		src = root
 	}
 	g := f.Graph()
 	cn := g.NodeContaining(asg.LHS.Pos())
